@@ -211,6 +211,26 @@ theorem C22_quiescent_partial {cfg : Cfg} {s : St} (h : Reachable cfg s) (hq : q
   · have := inv.running
     simp [hin, hlost] at this; exact this
 
+/-! ### cancellation: the part of the ordering clause that does hold -/
+
+/-- one worker; job 0 sets the cancel flag from inside its operation, job 1 (custom) was queued before -/
+def cfgEx2 : Cfg := ⟨[⟨true, .ok, true⟩, ⟨true, .ok, false⟩], 1, false, false, false, false⟩
+def actsEx2 : List Act :=
+  [.dLoad, .dEnq, .dLoad, .dEnq, .dClose, .deq false, .w 0, .w 0, .w 0, .w 0, .w 0, .w 0,
+   .deq false, .w 1, .w 1, .w 1, .w 1, .w 1]
+
+/-- job 1 calls `start_job` with the flag set, is reported `Failed` and its operation is not entered -/
+example : ∃ s, Reachable cfgEx2 s ∧
+    (quiescent s && decide (s.ranLog = [0]) && decide (s.sent = [(0, .success), (1, .failed)])) = true :=
+  check_sound (as := actsEx2) (by decide)
+
+/-- A CUSTOM job that calls `start_job` when the cancel flag is already set never enters its
+operation: every operation entered by a job that started with the flag set belongs to a
+non-custom job (for those the code does not look at the flag — finding F3). -/
+theorem C22_custom_jobs_respect_flag {cfg : Cfg} {s : St} (h : Reachable cfg s) :
+    ∀ j ∈ s.ranLateC, (specOf cfg j).custom = false :=
+  (invC_reachable h).log
+
 /-! ### counter-witnesses: the FULL statement is false of the code as it is
 
 Each witness is a concrete action sequence of the model, replayed by the kernel (`decide`).
